@@ -72,7 +72,7 @@ func init() {
 	Specs["C19"] = &Spec{
 		ID: "C19",
 		Rule: "schedule part: scenario = one multipart client request that puts two file-carrying downstream requests in flight (client batch of two upload operations, same or different services; one operation with upload fields on two services) " +
-			"taken from the layout alphabet of the enumeration part, restricted to layouts that are clean when run alone; every schedule of the real handler (rewritten sources, sync.Pool modelled as a LIFO free list) operation-grained (scheduling choices between the goroutine subtrees of different operations / steps, default order inside one) with <=1 preemption (thorough: <=2), state-cached; " +
+			"taken from the layout alphabet of the enumeration part, restricted to layouts that are clean when run alone; every schedule of the real handler (rewritten sources, sync.Pool modelled as a LIFO free list) operation-grained for client batches, step-grained for one operation on two services (scheduling choices between the goroutine subtrees of different operations / per-service steps, default order inside one) with <=1 preemption (thorough: <=2), state-cached; " +
 			"oracle per execution = the enumeration part's (each service that uses the variable receives a multipart sub-request with the same path -> name, bytes; nobody else gets a file; no undecodable request; answers without errors); non-trivial = >1 execution",
 		Assumptions: []string{
 			"in-memory services yield to the scheduler once per HTTP call, before they read the request body (as a real transport reads the body some time after the request was built)",
@@ -116,10 +116,15 @@ func init() {
 						continue
 					}
 					l := l
+					// a client batch: threads = operations (0.k); one operation: threads = its per-service steps (0.k.j)
+					group := 1
+					if len(l.Ops) == 1 {
+						group = 2
+					}
 					out = append(out, Scenario{
 						Name:  fmt.Sprintf("%s %s | %s PB<=%d", w.world, w.cfg.String(), l.Desc, bound),
 						Atoms: []string{"concurrent-uploads"},
-						Opt:   explore.Options{Bound: bound, Horizon: 200000, Cache: true, GroupDepth: 1},
+						Opt:   explore.Options{Bound: bound, Horizon: 200000, Cache: true, GroupDepth: group},
 						H:     c19Harness(w.world, w.cfg, l, false),
 						Fresh: func() explore.Harness { return c19Harness(w.world, w.cfg, l, true) },
 					})
